@@ -254,14 +254,36 @@ var (
 	c09NotAllowedReason = routers.ErrMethodNotAllowed.(*routers.RouteError).Reason
 )
 
-func c09Find(r routers.Router, req *http.Request) map[string]any {
+// c09Find calls FindRoute and projects the result; the returned route object (nil if none) is handed
+// back so that the caller can keep holding it while further requests are routed.
+func c09Find(r routers.Router, req *http.Request) (map[string]any, *routers.Route) {
+	obs, route := c09FindObs(r, req)
+	if obs["k"] != "route" {
+		route = nil
+	}
+	return obs, route
+}
+
+// c09Held reads a route object the caller kept: its Method, Path and operation, as they are now.
+func c09Held(route *routers.Route) map[string]any {
+	if route == nil {
+		return map[string]any{"k": "none"}
+	}
+	op := ""
+	if route.Operation != nil {
+		op = route.Operation.OperationID
+	}
+	return map[string]any{"k": "route", "path": route.Path, "m": route.Method, "op": op}
+}
+
+func c09FindObs(r routers.Router, req *http.Request) (map[string]any, *routers.Route) {
 	var (
 		route  *routers.Route
 		params map[string]string
 		err    error
 	)
 	if p, msg := guard(func() { route, params, err = r.FindRoute(req) }); p {
-		return map[string]any{"k": "panic", "msg": msg}
+		return map[string]any{"k": "panic", "msg": msg}, nil
 	}
 	if err != nil {
 		var re *routers.RouteError
@@ -273,12 +295,12 @@ func c09Find(r routers.Router, req *http.Request) map[string]any {
 			case c09NotAllowedReason:
 				kind = "methodNotAllowed"
 			}
-			return map[string]any{"k": "rerr", "kind": kind}
+			return map[string]any{"k": "rerr", "kind": kind}, nil
 		}
-		return map[string]any{"k": "err", "msg": err.Error()}
+		return map[string]any{"k": "err", "msg": err.Error()}, nil
 	}
 	if route == nil {
-		return map[string]any{"k": "nilroute"}
+		return map[string]any{"k": "nilroute"}, nil
 	}
 	names := make([]string, 0, len(params))
 	for n := range params {
@@ -297,7 +319,7 @@ func c09Find(r routers.Router, req *http.Request) map[string]any {
 	if route.Server != nil {
 		obs["srv"] = route.Server.URL
 	}
-	return obs
+	return obs, route
 }
 
 func c09Run(c *Case) []any {
@@ -334,6 +356,7 @@ func c09Run(c *Case) []any {
 	line["rdoc"] = c09ProjectDoc(doc)
 
 	ru, rm, og, ol := []any{}, []any{}, []any{}, []any{}
+	var heldG, heldL []*routers.Route // every route object returned during this case, kept by the caller
 	for _, r := range tc.Reqs {
 		mk := func() *http.Request {
 			req, err := http.NewRequest(r.M, c09URLText(r.U), nil)
@@ -345,10 +368,18 @@ func c09Run(c *Case) []any {
 		req := mk()
 		ru = append(ru, req.URL.String())
 		rm = append(rm, req.Method)
-		og = append(og, c09Find(g, req))
-		ol = append(ol, c09Find(l, mk()))
+		o, rt := c09Find(g, req)
+		og, heldG = append(og, o), append(heldG, rt)
+		o, rt = c09Find(l, mk())
+		ol, heldL = append(ol, o), append(heldL, rt)
 	}
-	line["ru"], line["rm"], line["g"], line["l"] = ru, rm, og, ol
+	// history: after the last request, read every route returned earlier again
+	gh, lh := []any{}, []any{}
+	for i := range heldG {
+		gh = append(gh, c09Held(heldG[i]))
+		lh = append(lh, c09Held(heldL[i]))
+	}
+	line["ru"], line["rm"], line["g"], line["l"], line["gh"], line["lh"] = ru, rm, og, ol, gh, lh
 	return []any{line}
 }
 
